@@ -59,6 +59,13 @@ CLAIMED = {
             "rank lists, non-contiguous and lazily conjugated core views, requires_grad cores), all four dtypes.",
             "Trusted: torch.equal, storage pointers, the checker's dense contraction. CPU only.",
             "DESIGN.md 4/C19"),
+    "C15": ("property-based testing (Hypothesis): grammar-generated scalar expressions over the differentiable TT ops, three-way gradient agreement (TT autograd / dense autograd / finite differences)",
+            "Generated expression chains and terminals over all listed differentiable operations with a drawn subset of "
+            "tracked leaves/cores (direct or grad.watch); oracle = dense autograd on the same leaf cores through the "
+            "checker's contraction (1e-9), central finite differences (1e-6), equal values, and the grad.grad / "
+            "grad.grad_list API returning the same tensors with core shapes.",
+            "Trusted: torch.autograd on dense expressions. Depth limited to 2 chain ops + terminal; float64 real only.",
+            "DESIGN.md 4/C15"),
     "C16": ("property-based testing (Hypothesis): generated base points with achievable minimal ranks and arbitrary z,w vs. an independent dense tangent-space projector built from unfolding SVDs",
             "Generated search over order/rank profile/operator-vs-tensor/z kind/f with a dense reference projector "
             "assembled by the checker; equality with the reference plus the projector laws (linearity, idempotence, "
